@@ -75,6 +75,19 @@ func Compare(a, b any) int {
 }
 
 func Cmp[T int | int32 | int64 | int16 | int8 | uint | uint32 | uint64 | uint16 | byte | float32 | float64](a T, b any) int {
+	if _, same := b.(T); !same {
+		// operands of different numeric types are compared by value instead of
+		// converting the right operand to the left operand's type (which
+		// truncated fractions and wrapped negative numbers)
+		x, y := float64(a), As[float64](b)
+		if x == y {
+			return 0
+		}
+		if x > y {
+			return 1
+		}
+		return -1
+	}
 	v := As[T](b)
 	if a == v {
 		return 0
